@@ -32,7 +32,9 @@ class Scheduler(iolayer.Consumer):
         self.main = threading.Semaphore(0)
         self.points: list[tuple] = []      # (enabled names, chosen index, labels)
         self.seq = 0
-        self.visible = visible or (lambda ev: not ev.resource.startswith(PRIVATE))
+        # an event is invisible (no scheduling point) only if every path it touches is private to its actor
+        self.visible = visible or (lambda ev: not (ev.resource.startswith(PRIVATE) and
+                                                   (not ev.path2 or iolayer.classify(ev.path2).startswith(PRIVATE))))
         self.trace: list[str] = []
         self.hung = None
         self.by_full: dict[str, dict] = {}
